@@ -427,7 +427,7 @@ class DataFormat(object):
     def _validated_bool(key, value, location):
         assert key
         assert value is not None
-        bool_text = DataFormat._validated_choice(key, value.lower(), ("false", "true"), True, location)
+        bool_text = DataFormat._validated_choice(key, value.lower(), ("false", "true"), location, True)
         result = bool_text == "true"
         return result
 
